@@ -7,14 +7,17 @@ package checks
 func init() {
 	extra := map[string]map[string]int{
 		"C02": {"first_tx_rolled_back": 20},
-		"C03": {"two_writer_rounds_released_by_close": 2},
+		"C03": {"two_writer_rounds_released_by_close": 2, "commit_frame_padded": 100},
 		"C05": {"points_recreate-first-tx": 5},
-		"C08": {"loss_by_unanswered_renewal": 1},
+		"C08": {"loss_by_unanswered_renewal": 1, "handoff_to_node_zero_refused": 1},
 		"C11": {"range_calls_refused": 50},
 		"C13": {"late_forward_to_former_primary_refused": 4},
 		"C14": {"recreated_with_other_page_size": 2, "fresh_idle_primary_adopted_existing_service": 1},
 		"C16": {"fault_refused_then_restart_old": 10},
 		"C17": {"C_page0_frames": 30, "A_first_transaction": 100},
+	}
+	if chk := Registry["C03"]; chk != nil {
+		addMountFloors(chk, func(tier string) map[string]int { return map[string]int{"kmount_wal_psow0_cases": 2} })
 	}
 	for id, add := range extra {
 		chk := Registry[id]
